@@ -27,6 +27,7 @@ def extra(tier, rng, ev, rep, tmp):
     cases = [c for c in C.pmap(c03.observe_case, specs) if not c['skip']]
     for c in cases:
         ev.count('bnf_grammars')
+        ev.count('results_skipped_more_than_300_expansions', c.get('too_ambiguous', 0))
         ev.count('bnf_cyclic' if c['cyclic'] else 'bnf_acyclic')
         for i in c['inputs']:
             for o in i['exp']:
